@@ -193,6 +193,35 @@ func c18Drive(args []string) int {
 		}
 		sum.sample(M{"format": ft.s.Format, "example_input": fmt.Sprintf("%q", ft.tmpl([]byte{0x80, 0xE9, 0x9D}))})
 	}
+	// long inputs of multi-line records (several buffer refills, which fall at different offsets once the decoder sits
+	// between the source and the reader): high bytes spread over the whole input
+	for _, s := range generatedSamples() {
+		schU, err, p := newSchema(s.Schema)
+		if err != nil || p != "" {
+			fmt.Println("error: schema", s.Name, err, p)
+			return 3
+		}
+		for enc, table := range tables {
+			schE, err, p := newSchema(withEncoding(s.Schema, enc))
+			if err != nil || p != "" {
+				fmt.Println("error: schema", s.Name, enc, err, p)
+				return 3
+			}
+			base := highBytes(s.Input)
+			for rep := 1; rep <= 3; rep += 2 {
+				in := bytes.Repeat(base, rep)
+				fam++
+				g := transcriptOf(schU, bytes.NewReader(toUTF8(table, in)), 100000)
+				events = append(events, M{"ev": "golden", "tr": fam, "item": s.Name, "results": fpAll(g, "full"), "desc": "converted to utf-8"})
+				for _, sizes := range [][]int{nil, {1}, {4096}, {1000}} {
+					v := transcriptOf(schE, &chunkReader{data: in, sizes: sizes, failAt: -1}, 100000)
+					events = append(events, M{"ev": "same", "tr": fam, "item": s.Name, "results": fpAll(v, "full"), "desc": fmt.Sprintf("declared %s, %d bytes, delivery %v", enc, len(in), sizes), "enc": enc})
+					sum.Traces++
+					sum.eval(len(g.Results) > 2, M{"f": s.Name, "e": enc, "n": len(in), "d": sizes})
+				}
+			}
+		}
+	}
 	mustWriteNDJSON(args[1], events)
 	sum.done()
 	return 0
